@@ -589,7 +589,7 @@ def run(ctx):
     seeds = [ctx.rng.randrange(1 << 30) for _ in range(ntr)]
     titems = [{"seed": s, "length": length, "nmax": 60 if k % 4 == 0 else 21} for k, s in enumerate(seeds)]
     tres = helpers.run_pool(ctx, "harness.drivers.c14:gen_trace", titems, stage="S3", item_timeout=120)
-    traces = [r["events"] for r in tres if r and "events" in r]
+    traces = [r["events"] for r in tres if r and r.get("events")]
     keep = ("op", "atoms", "cs", "box", "sel", "q", "rho", "c", "got")
     mms = []
     for chunk in helpers.chunked(traces, 400):
